@@ -58,7 +58,18 @@ impl Prop for C04 {
         let internal_names = case.vars.iter().any(|v| {
             ["$sl_", "$su_", "$a_", "$p", "$m"].iter().any(|p| v.0.starts_with(p))
         });
+        // the recorded microlp hangs are excluded by construction once a few were observed in this run
+        // (a hung call cannot be cancelled); the class needs the exact verdict, computed only for
+        // models with a free variable
+        let hang_prone = crate::props::c05::has_free_var(case) && {
+            let truth = crate::oracle::rat::solve_milp(&case.to_problem());
+            crate::props::c05::skip_hang_prone(case, &truth)
+        };
         for w in ALL.into_iter().chain(LIMITED) {
+            if hang_prone && !matches!(w, crate::props::solvers::Which::Clarabel | crate::props::solvers::Which::Tableau) {
+                labels.push(format!("{}:excluded-known-hang-class", w.name()));
+                continue;
+            }
             match solve(w, &model) {
                 Ans::Ok(sol) => {
                     any_ok = true;
